@@ -18,7 +18,7 @@ from harness.props.c08 import dump_to_schema
 ID = "C13"
 TIE_MODULES = ["StathamModel.Tie"]
 ASSUMPTIONS = ["reconfiguration goes through attribute assignment and the properties mapping (the public surface)"]
-N_HIST = {"quick": 250, "thorough": 8000}
+N_HIST = {"quick": 250, "thorough": 3000}
 
 
 def _not_nothing(dg):
